@@ -49,6 +49,9 @@ var props = map[string]propCfg{
 	"C02": {quick: 150000, thorough: 10000000, level: "exploration", stallS: 120, engine: "E2 simulated stream + real temp files + E1 seeded scheduler for the multi-alignment stream",
 		components: "real: the 6 writers, the 6 lexers and parsers, utils.OpenWriteFile / CloseWriteFile / GetReader / GetReaderFromReader / ReadAlign / ParseAlignmentAuto / ParseMultiAlignmentsAuto incl. its parser goroutine and the close of the file, gzip and xz layers, real files in the run's temp directory; environment: simFile (fragmentation, empty reads, EOF style, close accounting), yield points spliced by seamgen; stubs: none",
 		assumptions: []string{"which characters a format can represent in a name is a table written from the statement and the format definitions (nameExtra in sim/c02.go): Nexus punctuation, '#' and '/' for Stockholm, '>' for FASTA are excluded; names equal to a format keyword are not generated", "no disk faults: the property does not quantify over them and goalign has no seam under os.Create/os.Open", "testing/synctest reports quiescence correctly (go1.26.8)"}},
+	"C14": {quick: 40000, thorough: 4000000, level: "exploration", stallS: 120, engine: "E3 map-iteration-order seam (in-process)",
+		components: "real: every statistic of align.Alignment / SeqBag / Sequence / CountProfile named by the property plus the operations that inherit the majority character (MaskUnique, MaskOccurences, Mask with MAJ, RemoveMajorityCharacterSites); environment: verifrt.Keys behind every `range` over a map (spliced by seamgen, order = PRNG keyed on map seed, site and call count); stubs: none",
+		assumptions: []string{"every map iteration of goalign goes through the seam: seamgen rewrites each range statement whose operand has map type and reports the count in coverage.seams", "floating sums are compared to 1e-12 relative: the statement's 'same answer' is not read as the last bit of a re-associated sum", "the naive definitions are evaluated on the simulated runs but owe nothing to the simulation; where the documentation is ambiguous (N/X in variable and informative sites, lower case in entropy) both readings are accepted or the clause is skipped"}},
 	"C03": {quick: 2000000, thorough: 150000000, level: "fault_enumeration", stallS: 60, vlimitKB: 8 << 20, acceptExitDeath: true, engine: "E2 simulated stream with fault injection",
 		components: "real: the 6 lexers and 7 parsers (fasta, phylip strict/relaxed incl. ParseMultiple, nexus, clustal, stockholm, partition), utils.ParseAlignmentAuto, utils.ParseMultiAlignmentsAuto and its parser goroutine, bufio; environment: simFile (io.Reader + io.Closer: fragmentation, empty reads, EOF style, read errors, post-EOF read budget), os.Exit seam; stubs: none",
 		assumptions: []string{"a parser that asks the stream for more data 10000 times after the end was reported is looping (the budget is far above what bufio and the lexers need: they stop at the first EOF token)", "an out-of-memory death of a worker under an 8 GiB address-space limit counts as a crash caused by the input", "seeded search samples the fault space; only the stated sweeps (every prefix / every structural byte of the corpus files) are exhaustive"}},
